@@ -126,6 +126,13 @@ CLAIMED = {
         "Shapes whose affine rank is a matter of tolerance (sigma_r < 1e-2 sigma_1) are skipped; width values are asserted within 6.5 standard errors.",
         "DESIGN.md section 6 C18",
     ),
+    "C14": (
+        "model-based testing of call histories: exhaustive enumeration of all short registration sequences plus Hypothesis-generated histories, compared step by step with a stateless reference model, a fresh twin estimator and byte-level purity snapshots",
+        "Every sequence of <=2 (quick; plus all length-3 sequences starting with a system) / <=3 (thorough) symbols out of 17 concrete registration calls, and random histories of 3-10 steps with drawn arguments; after the history a battery of up to 22 queries runs on the long-lived "
+        "estimator and on a fresh twin built from the model's values: identical answers (or identical rejection), closed-form answers equal the model, no query mutates the estimator or the caller's arrays, rejected registrations change nothing.",
+        "fit() updates the registered targets: their values are taken from the estimator and validated against BVLS for the state at fit time; fits compared at solver tolerance.",
+        "DESIGN.md section 6 C14",
+    ),
 }
 
 PENDING_REASON = "check not built yet in this revision (planned, see DESIGN.md section 6); not claimed until its check runs quietly on the unchanged tree"
